@@ -211,6 +211,7 @@ func lockDiscipline(c *Ctx, sel func(key string) bool) {
 			}
 		}
 	}
+	staleWrites(c, sel)
 	c.Count("field_accesses_classified", nAcc)
 	c.Count("fields_with_accesses", len(seenField))
 	// every table row selected must have been seen (anchor check)
@@ -250,6 +251,88 @@ func lockStructOf(class string) string {
 		return class
 	}
 	return class[:i]
+}
+
+// staleWrites: a store to a lock-guarded field whose value derives from a read of the same field
+// made in an EARLIER critical section (the lock was released in between) overwrites whatever other
+// goroutines did in the gap — a lost update (check-then-act across critical sections).
+func staleWrites(c *Ctx, sel func(key string) bool) {
+	p := c.P
+	li := p.Locks()
+	fr := p.Freshness()
+	n := 0
+	for _, fn := range p.Funcs {
+		if !p.InScope(fn) {
+			continue
+		}
+		fl := li.Fns[fn]
+		// non-deferred unlock sites per class
+		unlocks := map[string][]ssa.Instruction{}
+		for _, ci := range callsIn(fn) {
+			if call, ok := ci.(*ssa.Call); ok {
+				if op, ok := asLockOp(call); ok && !op.Acquire {
+					unlocks[op.Class] = append(unlocks[op.Class], call)
+				}
+			}
+		}
+		if len(unlocks) == 0 {
+			continue
+		}
+		instrsOf(fn, func(in ssa.Instruction) {
+			k, st := storeKey(in)
+			class, guarded := tLock[k]
+			if st == nil || !guarded || (sel != nil && !sel(k)) || len(unlocks[class]) == 0 {
+				return
+			}
+			if fa := st.Addr.(*ssa.FieldAddr); fr.IsFresh(fa.X, 0) {
+				return
+			}
+			if fl.Must[st].HoldsClass(class) == 0 {
+				return // reported by guarded-by
+			}
+			n++
+			var loads []*ssa.UnOp
+			fieldLoads(st.Val, 0, map[ssa.Value]bool{}, &loads)
+			for _, ld := range loads {
+				lf, ok := fieldRefOf(ld.X)
+				if !ok || lf.Key() != k || ld.Parent() != fn {
+					continue
+				}
+				if p.DescQ(ld.X.(*ssa.FieldAddr).X, nil) != p.DescQ(st.Addr.(*ssa.FieldAddr).X, nil) {
+					continue
+				}
+				for _, u := range unlocks[class] {
+					if instrReaches(ld, u) && instrReaches(u, st) {
+						c.Fail("stale-write", p.FuncKey(fn)+"/"+k, p.InstrPos(st), fmt.Sprintf("%s is overwritten under %s with a value computed from a read of it at %s in an earlier critical section (the lock is released at %s in between): updates made by other goroutines in the gap are lost", k, class, p.InstrPos(ld), p.InstrPos(u)))
+						return
+					}
+				}
+			}
+		})
+	}
+	c.Count("guarded_stores_checked_for_staleness", n)
+}
+
+// instrReaches: b can execute after a on some path.
+func instrReaches(a, b ssa.Instruction) bool {
+	if a.Block() == b.Block() {
+		if valueIndex(a) < valueIndex(b) {
+			return true
+		}
+		// through a loop back to the same block
+		for _, s := range a.Block().Succs {
+			if reaches(s, a.Block(), map[*ssa.BasicBlock]bool{}) {
+				return true
+			}
+		}
+		return false
+	}
+	for _, s := range a.Block().Succs {
+		if reaches(s, b.Block(), map[*ssa.BasicBlock]bool{}) {
+			return true
+		}
+	}
+	return false
 }
 
 // lockPairing: at every return the lock set equals the entry set (no lock leaks, no unlock of
